@@ -785,6 +785,25 @@ class Esc:
                     tgt = s.target.elts[-1] if isinstance(s.target, ast.Tuple) else s.target
                     if isinstance(tgt, ast.Name):
                         env[tgt.id] = TRIE_VALUES[(m, s.iter.func.value.attr)]
+                # a loop over a generator function of the repository: the kinds of the unpacked targets are those of what it yields - an element
+                # read from a NameField of a TLV model is a decoded (formal) name
+                if isinstance(s.iter, ast.Call) and isinstance(s.target, ast.Tuple):
+                    gq = P.qual_of(P.resolve(m, s.iter.func))
+                    gf = P.funcs.get(gq) if gq else None
+                    if gf is not None:
+                        ys = [y.value for y in ast.walk(gf.node) if isinstance(y, ast.Yield) and isinstance(y.value, ast.Tuple) and len(y.value.elts) == len(s.target.elts)]
+                        if ys:
+                            name_attrs = {f_.name for mc_, fl_ in self.M.all.items() for f_ in fl_ if f_.kind in ('NameField', 'InterestNameField')}
+                            for i_, t_ in enumerate(s.target.elts):
+                                if isinstance(t_, ast.Name) and all(isinstance(y.elts[i_], ast.Attribute) and y.elts[i_].attr in name_attrs for y in ys):
+                                    kinds[t_.id] = 'FormalName'
+                                    nullable_vars.pop(t_.id, None)
+                                elif isinstance(t_, ast.Name) and all(isinstance(y.elts[i_], ast.Call) for y in ys):
+                                    qs_ = {P.qual_of(P.resolve(gf.mod, y.elts[i_].func)) for y in ys}
+                                    if qs_ <= set(NAME_LIBENCODED_PRODUCERS):
+                                        kinds[t_.id] = 'LibEncoded'
+                                    elif qs_ <= set(NAME_FORMAL_PRODUCERS):
+                                        kinds[t_.id] = 'FormalName'
                 saved = set(nonnull)
                 # a suspension inside the loop invalidates done() facts established before it; handled conservatively
                 block(s.body, hs)
